@@ -1,5 +1,6 @@
 import RxModel.Lemmas.Local
 import RxModel.Derived
+import RxModel.Props.C20
 /-!
 # C10 — per-key sequence operators match their list semantics
 
@@ -400,4 +401,50 @@ theorem C10_sort {α κ} (key : α → κ) (lt : κ → κ → Bool) (reverse : 
   intro a b hab hsub
   exact List.pair_sublist_mergeSort htrans htotal hab hsub
 
+
+/-! ### batch: the clause of the statement on the composed operator (`C20_batch` + `C20_chunks_spec`) -/
+
+theorem chunksOf_length {α} (n : Nat) (hn : 0 < n) : ∀ (m : Nat) (xs : List α), xs.length = m →
+    (chunksOf n xs).length = (xs.length + n - 1) / n := by
+  intro m
+  induction m using Nat.strongRecOn with
+  | ind m ih =>
+    intro xs hm
+    cases xs with
+    | nil =>
+      simp only [chunksOf_nil, List.length_nil]
+      exact (Nat.div_eq_of_lt (by omega)).symm
+    | cons x xs =>
+      rw [chunksOf_cons n hn]
+      have hlt : ((x :: xs).drop n).length < m := by
+        rw [← hm]; simp only [List.length_drop, List.length_cons]; omega
+      rw [List.length_cons, ih _ hlt _ rfl]
+      simp only [List.length_drop, List.length_cons]
+      by_cases h : xs.length + 1 ≤ n
+      · have e1 : xs.length + 1 - n = 0 := by omega
+        rw [e1]
+        have : (0 + n - 1) / n = 0 := Nat.div_eq_of_lt (by omega)
+        rw [this]
+        have : (xs.length + 1 + n - 1) / n = 1 := by
+          apply Nat.div_eq_of_lt_le <;> omega
+        omega
+      · have e : xs.length + 1 + n - 1 = (xs.length + 1 - n + n - 1) + n := by omega
+        rw [e, Nat.add_div_right _ hn]
+
+/-- batch(n), the clause of the statement at full strength, on the operator as the code composes it -/
+theorem C10_batch {α : Type} (n : Nat) (hn : 0 < n) (xs : List α) :
+    (items ((batchG n).outL xs)).flatten = xs ∧
+    (∀ c ∈ items ((batchG n).outL xs), c ≠ [] ∧ c.length ≤ n) ∧
+    (∀ c ∈ (items ((batchG n).outL xs)).dropLast, c.length = n) := by
+  rw [C20_batch n hn xs]
+  exact C20_chunks_spec n hn xs.length xs rfl
+
+/-- the number of batches is ⌈len/n⌉: none for an empty source, no duplicate or empty final batch when the
+length is a multiple of `n` -/
+theorem C10_batch_count {α : Type} (n : Nat) (hn : 0 < n) (xs : List α) :
+    (items ((batchG n).outL xs)).length = (xs.length + n - 1) / n := by
+  rw [C20_batch n hn xs]
+  exact chunksOf_length n hn xs.length xs rfl
+
+example : items ((batchG 3).outL [1,2,3,4,5,6]) = [[1,2,3],[4,5,6]] := by decide
 end Rx
